@@ -52,6 +52,15 @@ def one_history(workdir, rng, findings, stats):
     uri = uri_for(os.path.join(workdir, "doc." + ext))
     s = Server(workdir)
     trace = [{"op": "didOpen", "language_id": lang, "text": text}]
+    if rng.random() < 0.4:
+        # a user dictionary that lists words the curated dictionary has as well (a merged word list, a synced file):
+        # spelling suggestions then come from two dictionaries
+        os.makedirs(os.path.dirname(s.user_dict), exist_ok=True)
+        listed = ["receive", "world", "test", "table", "garden", "coffee", "grammar", "place", "things"]
+        with open(s.user_dict, "w", encoding="utf-8") as f:
+            f.write("".join(w + "\n" for w in listed))
+        trace.insert(0, {"op": "user dictionary on disk", "words": listed})
+        stats["with_user_dictionary"] = stats.get("with_user_dictionary", 0) + 1
 
     def finding(sig, detail):
         findings.append({"prop": "C14", "sig": sig, "count": 1, "wlen": len(text), "witness": {"history": list(trace)}, "detail": detail})
